@@ -32,7 +32,7 @@ import rsatoolbox.rdm as rr  # noqa: E402
 
 from harness import compare as C  # noqa: E402
 
-NAN_MARK = 99
+NAN_MARK = -999999
 MEASURES = {'none': None, 'plain': 'test measure', 'sqeuclid': 'squared euclidean', 'ranked': 'crossnobis (ranks)'}
 CUSTOM = {1: lambda v: 2 * v + 1, 2: lambda v: v ** 2, 3: lambda v: -v, 4: lambda v: v[:, ::-1].copy()}
 CLAUSE = {'rank': 'a', 'positive': 'b', 'sqrt': 'b', 'minmax': 'c', 'geotopo': 'd', 'geodesic': 'e', 'custom': 'f'}
@@ -248,6 +248,9 @@ def replay_chunk(args):
 # ------------------------------------------------------------------------------------------------
 # clause h through the library's own transforms, on the "out" vectors of Compare.tla
 # ------------------------------------------------------------------------------------------------
+EXTREME_SCALES = (1e-26, 1e-13, 1e12, 1e-20)
+
+
 def invariance_checks(rec, nc, variant=0):
     """for a Compare test vector (t = "v"): which library transform must leave which measure
     unchanged.  Returns (n_evaluations, violations).
@@ -261,7 +264,7 @@ def invariance_checks(rec, nc, variant=0):
     a, b = rec['a'], rec['b']
     out = []
     nev = 0
-    if m in C.BURES_METHODS:
+    if m == 'bures_metric' or m in C.RIEM_METHODS:
         return 0, out
     sg = None
     sigma = None
@@ -286,6 +289,11 @@ def invariance_checks(rec, nc, variant=0):
         todo.append(('minmax_transform', lambda r: rr.minmax_transform(r), max(C.tol_for(m, sgc), 1e-12)))
     if m in ('cosine', 'cosine_cov'):
         todo.append(('scale', lambda r: rr.transform(r, lambda v: 3.0 * v), max(C.tol_for(m, sgc), 1e-12)))
+    # every similarity is invariant under a positive rescaling of either RDM, however extreme (the squares of
+    # the entries stay far from underflow / overflow)
+    cx = EXTREME_SCALES[variant % len(EXTREME_SCALES)]
+    todo.append((f'scale-extreme', (lambda cx: lambda r: rr.transform(r, lambda v: cx * v))(cx),
+                 0.0 if m in C.RANK_METHODS else max(C.tol_for(m, sgc), 1e-12)))
     if not todo:
         return 0, out
     A0, B0 = C.make_rdms(a, 'a'), C.make_rdms(b, 'b')
@@ -528,3 +536,195 @@ def inv_trace_job(args):
         return seed, nc, record_inv_trace(seed, nc), None
     except Exception as e:
         return seed, nc, None, repr(e)
+
+
+# ------------------------------------------------------------------------------------------------
+# chains of transforms (Transform.tla: Chain) and what follows them: a structural operation and a
+# comparison (thorough tier)
+# ------------------------------------------------------------------------------------------------
+def _expected_values(rec):
+    """exact output of the specification as floats (sqrt as the last step: root of the emitted square)"""
+    last = rec['chain'][-1]['n']
+    out = []
+    for row in rec['out']:
+        r = []
+        for p in row:
+            e = rat(p)
+            if isinstance(e, float):
+                r.append(e)
+            else:
+                r.append(math.sqrt(float(e)) if last == 'sqrt' else float(e))
+        out.append(r)
+    return np.array(out, dtype=float)
+
+
+def run_chain(x, mc, chain):
+    """the public transforms one after the other -> (final RDMs | None, violations)"""
+    r = make_rdms(x, mc)
+    out = []
+    names = '>'.join(t['n'] for t in chain)
+    for step, t in enumerate(chain):
+        before = r.dissimilarity_measure
+        try:
+            r = call_transform(r, t)
+        except Exception as e:
+            out.append((f"C17/chain/{t['n']}/raises/{type(e).__name__}",
+                        f"step {step + 1} ({t['n']}) of the chain {names} raises: {e!r}"[:300],
+                        {'x': x, 'chain': chain, 'step': step}))
+            return None, out
+        after = r.dissimilarity_measure
+        ranked_already = t['n'] == 'rank' and '(ranks)' in (before or '')
+        if not ranked_already and (not isinstance(after, str) or not after or after == before):
+            out.append((f"C17/g/{t['n']}/measure-not-updated",
+                        f"{t['n']} (step {step + 1} of {names}): dissimilarity_measure stays {after!r}",
+                        {'x': x, 'chain': chain, 'step': step, 'result_measure': after}))
+    return r, out
+
+
+def check_chain_record(rec):
+    """S -> I for a chain of two or three transforms: final values against the exact rationals, descriptors
+    of the source on the final object"""
+    x, mc, chain = rec['x'], rec['meas'], rec['chain']
+    names = '>'.join(t['n'] for t in chain)
+    ref = make_rdms(x, mc)
+    res, out = run_chain(x, mc, chain)
+    if res is None:
+        return 1, out
+    got = np.asarray(res.get_vectors(), dtype=float)
+    exp = _expected_values(rec)
+    if got.shape != exp.shape:
+        out.append((f'C17/chain/{names}/shape', f'result of the chain {names} has shape {got.shape}', {'x': x, 'chain': chain}))
+        return 1, out
+    tol = 1e-9
+    same = (np.abs(got - exp) <= tol) | (got == exp) | (np.isnan(got) & np.isnan(exp))
+    if not np.all(same):
+        i, k = [int(z) for z in np.argwhere(~same)[0]]
+        out.append((f'C17/chain/{names}/value',
+                    f'chain {names}: entry {k} of RDM {i} is {got[i, k]}, the definitions composed give {exp[i, k]}',
+                    {'x': x, 'chain': chain, 'measure': MEASURES[mc],
+                     'expected': np.where(np.isfinite(exp), exp, -1).tolist(), 'got': np.where(np.isfinite(got), got, -1).tolist()}))
+    for what, a, b in (('descriptors', ref.descriptors, res.descriptors),
+                       ('rdm_descriptors', ref.rdm_descriptors, res.rdm_descriptors),
+                       ('pattern_descriptors', ref.pattern_descriptors, res.pattern_descriptors)):
+        if not descriptors_equal(a, b):
+            out.append((f'C17/g/chain/{what}', f'chain {names}: {what} of the result differ from the source',
+                        {'x': x, 'chain': chain}))
+    return 1, out
+
+
+STRUCT_METHODS = ('cosine', 'corr', 'spearman', 'kendall', 'tau-a', 'rho-a', 'cosine_cov', 'corr_cov')
+
+
+def _sub_vec(v, sel):
+    """condensed vector of the conditions sel (ascending) of a condensed vector"""
+    n = C._n_from_len(len(v))
+    idx = {p: k for k, p in enumerate(C._pairs(n))}
+    return np.array([v[idx[(sel[i], sel[j])]] for i in range(len(sel)) for j in range(i + 1, len(sel))])
+
+
+def structure_checks(rec, idx):
+    """thorough tier: the RDMs object a chain returned is cut / resampled / concatenated through the public
+    container operations and compared with the (equally treated) source stack; the expectation is the
+    trusted array kernel of harness/compare.py on the EXACT chain output with the same index operation
+    done on plain arrays.  Entries that are degenerate for the measure are not demanded; stacks whose chain
+    output holds NaN or inf are skipped (missing values in compare() belong to C13)."""
+    x, mc, chain = rec['x'], rec['meas'], rec['chain']
+    exp = _expected_values(rec)
+    if not np.all(np.isfinite(exp)) or any(NAN_MARK in v for v in x):
+        return 0, []
+    res, out = run_chain(x, mc, chain)
+    if res is None:
+        return 0, []
+    X = to_array(x)
+    n_rdm, L = X.shape
+    nc = C._n_from_len(L)
+    srcobj = make_rdms(x, mc)
+    op = ('subset_pattern', 'subsample', 'concat', 'subset', 'subsample_pattern')[idx % 5]
+    if op in ('subset_pattern', 'subsample_pattern') and nc < 4:
+        op = 'concat'
+    rows_t, rows_s = list(range(n_rdm)), list(range(n_rdm))
+    sel = list(range(nc))
+    try:
+        if op == 'subset_pattern':
+            sel = sorted([(idx // 5 + j) % nc for j in range(nc - 1)])
+            R, S = res.subset_pattern('index', sel), srcobj.subset_pattern('index', sel)
+        elif op == 'subsample_pattern':          # a selection without repeats, given out of order: kept ascending
+            sel = sorted([(idx // 5 + j) % nc for j in range(3)])
+            order = sel[::-1]
+            R, S = res.subsample_pattern('index', order), srcobj.subsample_pattern('index', order)
+        elif op == 'subset':
+            rows_t = rows_s = [(idx // 5) % n_rdm]
+            R, S = res.subset('index', rows_t), srcobj.subset('index', rows_s)
+        elif op == 'subsample':
+            rows_t = rows_s = [(idx // 5 + j) % n_rdm for j in (1, 0, 0)]
+            R, S = res.subsample('index', rows_t), srcobj.subsample('index', rows_s)
+        else:
+            from rsatoolbox.rdm import concat
+            R = concat([res, res.subset('index', [0])])
+            S = srcobj
+            rows_t = list(range(n_rdm)) + [0]
+    except Exception as e:
+        return 1, out + [(f'C17/chain/then-{op}/raises/{type(e).__name__}', repr(e)[:200], {'x': x, 'chain': chain, 'op': op})]
+    ET = np.array([_sub_vec(exp[i], sel) for i in rows_t])
+    ES = np.array([_sub_vec(X[i], sel) for i in rows_s])
+    if not (np.allclose(R.get_vectors(), ET, rtol=0, atol=1e-9) and np.array_equal(S.get_vectors(), ES)):
+        return 1, out + [(f'C17/chain/then-{op}/vectors', f'{op} after the chain does not hold the expected entries',
+                          {'x': x, 'chain': chain, 'op': op, 'conditions': sel, 'rows': rows_t})]
+    m = STRUCT_METHODS[(idx // 3) % len(STRUCT_METHODS)]
+    if m in C.RANK_METHODS and any(t['n'] in ('geodesic', 'geotopo') for t in chain):
+        # path sums / interpolated thresholds: entries that are exactly tied in the definition may differ in the
+        # last bit in floats, and rank-based measures are not continuous there - use a continuous measure
+        m = ('cosine', 'corr', 'cosine_cov', 'corr_cov')[idx % 4]
+    sigma = None
+    if m in C.COV_METHODS:
+        sg = C.SIGMAS[nc][idx % 6] if nc in C.SIGMAS else None
+        sigma = C.sigma_array(sg)
+        if sigma is not None:
+            sigma = sigma[sel] if sigma.ndim == 1 else sigma[np.ix_(sel, sel)]
+    nev = 1
+    try:
+        got = np.asarray(C.call(m, R, S, sigma, 'compare'), dtype=float)
+    except Exception as e:
+        adm = all(C._admissible(m, v) for v in list(ET) + list(ES))
+        if adm:
+            out.append((f'C17/chain/then-{op}/compare/{m}/raises/{type(e).__name__}', repr(e)[:200],
+                        {'x': x, 'chain': chain, 'op': op, 'method': m}))
+        return nev, out
+    tol = max(C.tol_for(m, 'none' if sigma is None else 'matrix'), 1e-9)
+    for i, u in enumerate(ET):
+        for j, w in enumerate(ES):
+            if not (C._admissible(m, u) and C._admissible(m, w)):
+                continue
+            e = C.array_kernel(m, u, w, sigma)
+            if not (abs(got[i, j] - e) <= tol):
+                out.append((f'C17/chain/then-{op}/compare/{m}',
+                            f'compare({op}(chain(x)), {op}(x), {m})[{i},{j}] = {got[i, j]}, the definition gives {e}',
+                            {'x': x, 'chain': chain, 'op': op, 'conditions': sel, 'rows': rows_t, 'method': m,
+                             'sigma_k': None if sigma is None else sigma.tolist()}))
+                return nev, out
+    return nev, out
+
+
+def chain_chunk(args):
+    base, lines, structure = args
+    nev = nt = 0
+    bad = []
+    for j, line in enumerate(lines):
+        rec = json.loads(line)
+        if 'chain' not in rec:
+            continue
+        if len(rec['chain']) == 1:
+            for dtype, scale in flavours_for(rec, base + j):
+                n, out = check_record(rec, dtype, scale)
+                nev += n
+                bad.extend(out)
+        else:
+            n, out = check_chain_record(rec)
+            nev += n
+            bad.extend(out)
+        if structure:
+            n, out = structure_checks(rec, base + j)
+            nev += n
+            bad.extend(out)
+        nt += nontrivial(rec)
+    return len(lines), nev, nt, bad
